@@ -32,7 +32,9 @@ def run_harness(mode, timeout=600):
         lock = os.path.join(REPO, 'Cargo.lock')
         env = dict(os.environ, CARGO_TARGET_DIR=os.path.join(scratch, 'target'), CARGO_NET_OFFLINE='true')
         rf = env.get('RUSTFLAGS', '')
-        env['RUSTFLAGS'] = (rf + ' --cfg similar_verif -Awarnings').strip()
+        # the replay runs the code as shipped (guard OFF) unless VERIF_REPLAY_HOOKS=1
+        hook = ' --cfg similar_verif' if os.environ.get('VERIF_REPLAY_HOOKS') == '1' else ''
+        env['RUSTFLAGS'] = (rf + hook + ' -Awarnings').strip()
         p = subprocess.run(['cargo', 'run', '--release', '--offline', '-q', '--', mode], cwd=scratch, env=env,
                            stdout=subprocess.PIPE, stderr=subprocess.PIPE, text=True, timeout=timeout)
         log = (p.stdout[-6000:] + '\n' + p.stderr[-3000:]).strip()
